@@ -73,7 +73,7 @@ class OpSpec(object):
         self.kind = 'instance'        # instance | class
         self.extractor = None         # None | 'ok' | 'raises' | 'junk0'..
         self.params = None            # dict for RecordingParameters or None
-        self.params_style = 'object'  # object | kwargs
+        self.params_style = 'object'  # object | kwargs | attributes (set on the object after it was registered)
 
     def describe(self):
         return '%s(%s op, extractor=%s, params=%s)' % (self.name, self.kind, self.extractor, self.params)
@@ -686,6 +686,12 @@ class Service(object):
         if self.decorate and spec.op.params is not None:
             if spec.op.params_style == 'kwargs':
                 rec.recording_params(**spec.op.params)(cls)
+            elif spec.op.params_style == 'attributes':
+                # the documented public attributes of a default RecordingParameters, assigned after the registration
+                p = RecordingParameters()
+                rec.recording_params(p)(cls)
+                for k in sorted(spec.op.params):
+                    setattr(p, k, spec.op.params[k])
             else:
                 rec.recording_params(RecordingParameters(**spec.op.params))(cls)
         return cls
